@@ -24,7 +24,9 @@ Definition gen_afield (ver : N) : Gen afield :=
              | 7 => gret 6 | 8 => grange 1 64
              | 9 => if ver =? 10 then gret 65535 else gret 3
              | _ => gret 4 end);
-  gdo pen <- gval 32;
+  gdo pk <- grand 3;
+  gdo pen0 <- gval 32;
+  let pen := if pk =? 0 then 9 else if pk =? 1 then 29305 else pen0 in
   let ent := (ver =? 10) && (e =? 0) in
   gret {| aEnt := ent; aId := id; aLen := ln; aPen := if ent then pen else 0 |}.
 
